@@ -179,7 +179,7 @@ func runC19(w *World) {
 		return g.program(r, size)
 	})
 	a := w.addActor(n, "127.0.0.1:50001", prog)
-	a.onReply = func(op *Op) { hc.onReply(op, a.end.c.id) }
+	a.onReply = func(op *Op) { hc.onReply(op, a.end.c.name) }
 	checks := 0
 	// API comparison at a few points of the program and at the end
 	cuts := []int{size / 3, 2 * size / 3, size}
